@@ -41,6 +41,7 @@ func main() {
 		unitWire(c)
 		unitAssemble(c)
 		unitAssembler(c)
+		unitRecvStream(c)
 	case "e2e":
 		e2e(c)
 	default:
